@@ -64,8 +64,13 @@ def main():
     for pid in want:
         for f in glob.glob(os.path.join(COV, ".coverage*")):
             os.remove(f)
-        env = dict(os.environ, PYTHONPATH="/repo", PYTHONHASHSEED="0", PYGLS_VERIF="1", VERIF_NO_EVIDENCE="1", VERIF_SERIAL="1",
-                   PYTHONDONTWRITEBYTECODE="1")
+        # interpreters the check spawns are measured too when they inherit PYTHONPATH (sitecustomize
+        # starts coverage in them); a child started with an explicit PYTHONPATH of its own is not
+        site = os.path.join(COV, "site"); os.makedirs(site, exist_ok=True)
+        open(os.path.join(site, "sitecustomize.py"), "w").write(
+            "try:\n    import coverage; coverage.process_startup()\nexcept Exception:\n    pass\n")
+        env = dict(os.environ, PYTHONPATH="/repo" + os.pathsep + site, PYTHONHASHSEED="0", PYGLS_VERIF="1",
+                   VERIF_NO_EVIDENCE="1", VERIF_SERIAL="1", PYTHONDONTWRITEBYTECODE="1", COVERAGE_PROCESS_START=rc)
         r = subprocess.run(["/venv/bin/python", "-m", "coverage", "run", f"--rcfile={rc}", "harness/check.py", pid,
                             "--tier", "quick"], cwd=ROOT, env=env, capture_output=True, text=True, timeout=3600)
         subprocess.run(["/venv/bin/python", "-m", "coverage", "combine", f"--rcfile={rc}"], cwd=COV, env=env,
